@@ -179,12 +179,13 @@ sys.modules["zz_slow"] = m
 res = {}
 ta = threading.Thread(target=lambda: stackscope.extract(G))
 def b():
-    started.wait(); stackscope.extract(G); res["installed_when_B_returned"] = bool(done)
+    # (bounded wait: if the first extraction never calls the module's glue at all, that is the violation - not a hang)
+    res["glue_was_called"] = started.wait(10); stackscope.extract(G); res["installed_when_B_returned"] = bool(done)
 tb = threading.Thread(target=b)
 ta.start(); tb.start(); ta.join(); tb.join()
 sys.modules.pop("zz_slow", None)
 leg.case("two-threads", True)
-if not res.get("installed_when_B_returned") or len(done) != 1:
+if not res.get("glue_was_called") or not res.get("installed_when_B_returned") or len(done) != 1:
     leg.violation("two-threads", f"second extraction returned before glue was installed / glue ran {len(done)} times: {res}")
 for n in names: sys.modules.pop(n, None)
 leg.finish(exhaustive=True)
